@@ -70,7 +70,7 @@ fn setup() -> &'static Setup {
         ctx: if inv == "label" { "{n: 7, t: \"ab12_34\"}".to_string() } else { "{x: 7, s: \"ab12_34\"}".to_string() },
       });
     }
-    for inv in [format!("L{}", DEEP_DECISIONS), format!("L{}", DEEP_DECISIONS), format!("L{}", DEEP_DECISIONS / 2), "L7".to_string(), "viaK".to_string()] {
+    for inv in [format!("L{}", DEEP_DECISIONS), format!("L{}", DEEP_DECISIONS), format!("L{}", DEEP_DECISIONS / 2), "L7".to_string(), "viaK".to_string(), "viaK".to_string()] {
       rows.push(Row { model: "deep".to_string(), invocable: inv, ctx: "{x: 7, s: \"ab12_34\"}".to_string() });
     }
     let mut by_model: BTreeMap<String, Vec<usize>> = BTreeMap::new();
@@ -97,10 +97,10 @@ pub fn model_text(model: &str) -> Option<String> {
 }
 
 pub const DEEP_DECISIONS: usize = 160;
-pub const DEEP_KNOWLEDGE: usize = 48;
+pub const DEEP_KNOWLEDGE: usize = 96;
 
 /// A model whose size lies in its *depth*: a chain of 160 decisions each requiring the one before it, and a chain
-/// of 48 business knowledge models each invoking the one before it. Many threads nested deep inside it at once is
+/// of 96 business knowledge models each invoking the one before it. Many threads nested deep inside it at once is
 /// what a guard, a counter or a pool shared between calls has to survive.
 fn deep_model_text() -> String {
   let mut t = String::from("<?xml version=\"1.0\" encoding=\"UTF-8\"?>\n<definitions namespace=\"urn:verif:deep\" name=\"deep\" id=\"_deep\" xmlns=\"https://www.omg.org/spec/DMN/20191111/MODEL/\">\n");
